@@ -77,9 +77,12 @@ class IkeSaController:
 
         # if the IKE_SA needs to be closed
         if ike_sa.state == IkeSa.State.DELETED:
-            ike_sa.delete_child_sas()
-            self.ike_sas.remove(ike_sa)
-            logging.info(f'Deleted IKE_SA={ike_sa}. Count={len(self.ike_sas)}')
+            try:
+                ike_sa.delete_child_sas()
+            finally:
+                # whatever happens while its IPsec SAs are removed, a closed IKE_SA leaves the table
+                self.ike_sas.remove(ike_sa)
+                logging.info(f'Deleted IKE_SA={ike_sa}. Count={len(self.ike_sas)}')
 
         return reply
 
@@ -195,9 +198,11 @@ class IkeSaController:
                         dst_addr = (str(ikesa.peer_addr), 500)
                         udp_sockets[ikesa.my_addr].sendto(request_data, dst_addr)
                     if ikesa.state == IkeSa.State.DELETED:
-                        ikesa.delete_child_sas()
-                        self.ike_sas.remove(ikesa)
-                        logging.info('Deleted IKE_SA {}. Count={}'.format(ikesa, len(self.ike_sas)))
+                        try:
+                            ikesa.delete_child_sas()
+                        finally:
+                            self.ike_sas.remove(ikesa)
+                            logging.info('Deleted IKE_SA {}. Count={}'.format(ikesa, len(self.ike_sas)))
 
                 # serve the events that were queued while an IKE_SA was busy (and handed over to its successor)
                 for ikesa in self.ike_sas:
